@@ -9,6 +9,7 @@ import (
 	"io"
 	"log/slog"
 	"os"
+	"time"
 	"runtime"
 	"strconv"
 	"strings"
@@ -138,4 +139,9 @@ func shortFn(fn string) string {
 // Quiet silences the library's slog output (handler panics are logged with stack traces).
 func Quiet() {
 	slog.SetDefault(slog.New(slog.NewTextHandler(io.Discard, nil)))
+	// Nothing the properties state depends on the time zone of the host: every driver runs in a zone that is not UTC and not a
+	// whole number of hours away from it (VERIF_TZ=utc restores UTC).
+	if os.Getenv("VERIF_TZ") != "utc" {
+		time.Local = time.FixedZone("VRF", 5*3600+30*60)
+	}
 }
